@@ -64,6 +64,10 @@ FORMS = [
     # membership / containers
     ("bool", "({0} in {1})", ["int", "list<int>"]), ("bool", "({0} in {1})", ["string", "list<string>"]),
     ("bool", "({0} in m)", ["string"]), ("bool", "({0} in mi)", ["int"]),
+    # heterogeneous containers: a member of another type before / after the candidate match
+    ("bool", "({0} in ['a', {1}])", ["int", "int"]), ("bool", "({0} in [{1}, 'a'])", ["int", "int"]),
+    ("bool", "({0} in [1, 2u, {1}])", ["string", "string"]), ("bool", "({0} in {{'a': 1, 2: 4}})", ["int"]),
+    ("bool", "({0} in [1.5, {1}, b'x'])", ["int", "int"]),
     ("int", "{0}[0]", ["list<int>"]), ("int", "{0}[1]", ["list<int>"]), ("int", "{0}[{1}]", ["list<int>", "int"]),
     ("string", "{0}[0]", ["list<string>"]),
     ("int", "m.a", []), ("int", "m['b']", []), ("int", "m[{0}]", ["string"]), ("int", "mi[{0}]", ["int"]), ("string", "ms.a", []),
